@@ -26,6 +26,113 @@ def W(**kw):
     return w
 
 
+def series_payload_probes(rng, n, prop_kind):
+    """Series payload columns are outside the Coq alphabet; these Python-side probes keep a SeriesColumn whose row i
+    holds the unique payload of row i next to Mixed/Float/Int columns and check that every deriving / mutating
+    operation keeps the series cells with their rows (C01), writes exactly the addressed samples (C04) and resizes
+    them with the table (C07)."""
+    world._imports()
+    from datamatrix import DataMatrix, FloatColumn, IntColumn, SeriesColumn, operations as ops
+    import numpy as np
+    out = []
+    for k in range(n):
+        sub = random.Random(rng.randrange(1 << 30))
+        random.seed(sub.randrange(1 << 30))
+        problem = None
+        trail = []
+        with warnings.catch_warnings():
+            warnings.simplefilter('ignore')
+            try:
+                m = sub.randint(3, 9)
+                dm = DataMatrix(length=m)
+                dm.u = IntColumn
+                dm.u = list(range(1, m + 1))
+                dm.a = [sub.choice(['x', 'y', 1, 2.5, None]) for _ in range(m)]
+                dm.s = SeriesColumn(depth=3)
+                for i in range(m):
+                    dm.s[i] = [i + 1, (i + 1) * 10, np.nan]
+
+                def consistent(t):
+                    for i in range(len(t)):
+                        u = t.u[i]
+                        row = t.s[i]
+                        if u == 0:      # a row appended by a resize / a concatenation default
+                            if not all((x == 0) or (x != x) for x in row):
+                                return 'default row %d holds series %r' % (i, list(row))
+                        elif not (row[0] == u and row[1] == u * 10 and row[2] != row[2]):
+                            return 'row with payload %r holds series %r' % (u, list(row))
+                    if t.s.dm is not t or len(t.s) != len(t):
+                        return 'series column detached or of wrong length'
+                    return None
+                cur = dm
+                for _step in range(sub.randint(2, 6)):
+                    op = sub.choice(['select', 'sort', 'shuffle', 'slice', 'rows', 'merge', 'delrow', 'grow', 'shrink',
+                                     'concat', 'sample'] if prop_kind != 'C04' else ['select', 'sort', 'shuffle', 'slice'])
+                    trail.append(op)
+                    n_ = len(cur)
+                    if op == 'select':
+                        cur = cur.u >= sub.randint(0, 4)
+                    elif op == 'sort':
+                        cur = ops.sort(cur, by=cur.a)
+                    elif op == 'shuffle':
+                        cur = ops.shuffle(cur)
+                    elif op == 'sample':
+                        cur = ops.random_sample(cur, sub.randint(0, n_))
+                    elif op == 'slice':
+                        cur = cur[sub.randint(0, 2):]
+                    elif op == 'rows' and n_:
+                        cur = cur[sub.sample(range(n_), sub.randint(1, n_))]
+                    elif op == 'merge':
+                        other = cur.u != sub.randint(1, 5)
+                        cur = sub.choice([lambda: cur & other, lambda: cur | other, lambda: other | cur, lambda: cur ^ other])()
+                    elif op == 'delrow' and n_:
+                        del cur[sub.randrange(n_)]
+                    elif op == 'grow':
+                        cur.length = n_ + sub.randint(1, 2)
+                    elif op == 'shrink' and n_:
+                        cur.length = sub.randint(0, n_ - 1)
+                    elif op == 'concat':
+                        cur = cur << cur[:2]
+                    problem = consistent(cur)
+                    if problem:
+                        break
+                if problem is None and prop_kind == 'C04' and len(cur):
+                    before = np.array(cur.s._seq, copy=True)
+                    ubefore = list(cur.u)
+                    i = sub.randrange(len(cur))
+                    form = sub.choice(['sample', 'row', 'slice', 'sel'])
+                    trail.append('write:' + form)
+                    want = before.copy()
+                    if form == 'sample':
+                        j = sub.randrange(3)
+                        cur.s[i, j] = 7.5
+                        want[i, j] = 7.5
+                    elif form == 'row':
+                        cur.s[i] = [4, 5, 6]
+                        want[i] = [4, 5, 6]
+                    elif form == 'slice':
+                        cur.s[i:] = 9
+                        want[i:] = 9
+                    else:
+                        sel = cur.u == cur.u[i]
+                        cur.s[sel] = 8
+                        want[[r for r in range(len(cur)) if cur.u[r] == cur.u[i]]] = 8
+                    got = np.array(cur.s._seq)
+                    same = (got == want) | (np.isnan(got) & np.isnan(want))
+                    if not same.all() or list(cur.u) != ubefore:
+                        problem = 'series write (%s at row %d) changed %r, expected %r' % (form, i, got.tolist(), want.tolist())
+                if problem is None and consistent(dm):
+                    problem = 'the source table changed: ' + consistent(dm)
+            except Exception as e:      # noqa: BLE001
+                problem = 'raised %r' % (e,)
+        if problem:
+            problem = 'series payload after %s: %s' % ('/'.join(trail), problem)
+        out.append({'input': {'probe': 'series_payload', 'seed': k}, 'observed': {'problem': problem, 'ops': trail},
+                    'pyfail': problem, 'oracle': 'true', 'model': 'true', 'nontrivial': True,
+                    'sig': 'probe|series|%d' % k, 'tags': ['probe', 'probe:series_payload']})
+    return out
+
+
 class ProbeMixin:
     """Direct Python-side probes next to the histories: cases whose input has a 'probe' key."""
 
@@ -66,7 +173,7 @@ class C03(HistProp):
     assumptions = CORE_ASSUME
 
 
-class C04(HistProp):
+class C04(ProbeMixin, HistProp):
     id = 'C04'
     props_file = 'theories/Props/C04.v'
     weights = W(setcell=30, select=7, merge=3, slice=3, getrows=2, sort=4, shuffle=4, setlength=4, concat=3, setcol=4,
@@ -78,7 +185,13 @@ class C04(HistProp):
             'and concatenations; full table diff against Spec.step after every write and all other pool members via '
             'the frame check; distinct by (ops, seed)')
     trusted_base = CORE_TRUST
-    assumptions = CORE_ASSUME
+    assumptions = CORE_ASSUME + ['Series payloads: (row, sample) / row / slice / selection writes are probed on the Python side']
+
+    def generate(self, rng, tier):
+        return super().generate(rng, tier) + self.direct_probes(rng, 60 if tier == 'quick' else 600)
+
+    def direct_probes(self, rng, n):
+        return series_payload_probes(rng, n, 'C04')
 
 
 class C06(ProbeMixin, HistProp):
@@ -183,7 +296,7 @@ class C06(ProbeMixin, HistProp):
         return out
 
 
-class C07(HistProp):
+class C07(ProbeMixin, HistProp):
     id = 'C07'
     props_file = 'theories/Props/C07.v'
     weights = W(setlength=26, select=8, sort=5, shuffle=5, sample=2, merge=5, concat=4, slice=3, getrows=3, setcell=10,
@@ -192,9 +305,15 @@ class C07(HistProp):
             'produced by selection, sorting, shuffling, merging, concatenation, with two or more columns of mixed '
             'types, followed by selections, merges, assignments; the resized table is dumped and compared with '
             'Spec.step (first rows kept, default cells, fresh ids) and inv_b (ownership, caches, one cell per row) '
-            'after the resize and after each later operation')
+            'after the resize and after each later operation; Series payload columns by Python-side probes')
     trusted_base = CORE_TRUST
     assumptions = CORE_ASSUME
+
+    def generate(self, rng, tier):
+        return super().generate(rng, tier) + self.direct_probes(rng, 60 if tier == 'quick' else 600)
+
+    def direct_probes(self, rng, n):
+        return series_payload_probes(rng, n, 'C07')
 
 
 class C08(HistProp):
